@@ -1,4 +1,6 @@
 """C06 — the parser accepts every sentence of the grammar and returns its derivation (DESIGN §2 C06)."""
+import os
+
 from hypothesis import strategies as st
 
 import parso
@@ -63,13 +65,17 @@ def judge(v, start, tree, text, intended):
         ok = tokenizes_as_intended(g, text, intended)
     except RecursionError:
         raise
-    except Exception:
-        ok = False
+    except Exception as e:
+        import traceback
+        if 'parso' + os.sep in traceback.extract_tb(e.__traceback__)[-1].filename:
+            return crash_signature(e), True        # the tokenizer itself failed on a sentence of the grammar
+        raise
     if not ok:
         # the precondition must not hide a lexical defect: every generated spelling of a NAME / NUMBER / STRING is a
         # valid Python literal and has to come back as exactly one token of its kind when tokenized on its own
+        # (multi-line string spellings - triple quoted or continued with a backslash - included)
         for sym, txt in intended:
-            if sym in ('NAME', 'NUMBER', 'STRING') and '\n' not in txt and '\r' not in txt:
+            if sym in ('NAME', 'NUMBER', 'STRING'):
                 try:
                     toks = [(t.type.name, t.string) for t in tokenize(txt, version_info=g.version_info)]
                 except Exception as e:
